@@ -13,6 +13,22 @@
   are plain comments, not doc comments), so `<file>:<line>` of a build error lies between that line and the next
   `theorem` line.
 
+  Comparisons (property C20; model SLV/Model/Eq.lean, class `CmpScalar`), section "comparisons" at the end:
+  * `gen_BOpinion_abs_diff_eq_eq`, `gen_BOpinion_relative_eq_eq`, `gen_BOpinion_ulps_eq_eq`: the bodies of
+    `impl AbsDiffEq / RelativeEq / UlpsEq for BOpinion<$ft>` (translated: `self.b().abs_diff_eq(other.b(), epsilon)` ↦
+    `Cmp.absDiffEq x.b y.b epsilon`, .., argument order preserved) ARE `Cmp.bopCmp 1 / 2 / 3`, whatever the arguments
+    that the kind does not use; `bopCmp_abs_diff_eq` / `bopCmp_relative_eq` / `bopCmp_ulps_eq` / `bopCmp_eq` unfold
+    `Cmp.bopCmp k` into the conjunction over b, d, u, a.  By `rfl`: a swapped argument, a dropped or reordered
+    conjunct, `||` for `&&` break them.  `default_epsilon` / `default_max_relative` / `default_max_ulps` and
+    `type Epsilon` are text pins (guard groups `bop_cmp_epsilon` -> all three functions become holes,
+    `bop_cmp_max_relative` -> relative_eq, `bop_cmp_max_ulps` -> ulps_eq).
+  * `gen_eq_BSimplex_eq`, `gen_eq_BOpinion_eq`: `==` is DERIVED.  The marker definitions `eq_BSimplex`, `eq_BOpinion`
+    are generated from the field lists of the structs (`&&` of the fields' `==` in declaration order) under the
+    convention guard "the `#[derive(..)]` line still contains `PartialEq`, no hand-written `impl PartialEq` for the
+    type in the file" (for BSimplex also: `Simplex` of src/mul.rs is still derived with fields belief, uncertainty, and
+    `Simplex1d<V, N> = Simplex<[V; N], V>`); a violated guard makes the marker a hole, i.e. the theorem fails with an
+    unknown identifier (`eq_BOpinion` calls `eq_BSimplex`: a hole there is a hole here).
+
   Hand-written once; never regenerated.
 -/
 import SLV.Gen.Bi
@@ -112,5 +128,45 @@ theorem gen_Opinion1d_into_BOpinion_eq :
     @SLV.Gen.Opinion1d_into_BOpinion = fun (α : Type) (_ : Scalar α) (w : Opinion α 2) => SLV.BOp.ofOpinion w := rfl
 theorem gen_Opinion1d_ref_into_BOpinion_eq :
     @SLV.Gen.Opinion1d_ref_into_BOpinion = fun (α : Type) (_ : Scalar α) (w : Opinion α 2) => SLV.BOp.ofOpinion w := rfl
+
+/-! ### comparisons: src/bi.rs `impl AbsDiffEq / RelativeEq / UlpsEq for BOpinion<$ft>` and the derived `==`
+     (`β` with `[CmpScalar β]`: the section variable `[Scalar α]` must not provide a second `Scalar` instance) -/
+
+/- `Cmp.bopCmp k` unfolded: the conjunction, over b, d, u, a in this order, of the scalar comparison of kind k -/
+theorem bopCmp_eq {β : Type} [CmpScalar β] (eps maxRel : β) (maxUlps : Nat) (x y : BOp β) :
+    Cmp.bopCmp 0 eps maxRel maxUlps x y =
+      (Scalar.eq x.b y.b && Scalar.eq x.d y.d && Scalar.eq x.u y.u && Scalar.eq x.a y.a) := rfl
+theorem bopCmp_abs_diff_eq {β : Type} [CmpScalar β] (eps maxRel : β) (maxUlps : Nat) (x y : BOp β) :
+    Cmp.bopCmp 1 eps maxRel maxUlps x y =
+      (Cmp.absDiffEq x.b y.b eps && Cmp.absDiffEq x.d y.d eps && Cmp.absDiffEq x.u y.u eps
+        && Cmp.absDiffEq x.a y.a eps) := rfl
+theorem bopCmp_relative_eq {β : Type} [CmpScalar β] (eps maxRel : β) (maxUlps : Nat) (x y : BOp β) :
+    Cmp.bopCmp 2 eps maxRel maxUlps x y =
+      (Cmp.relativeEq x.b y.b eps maxRel && Cmp.relativeEq x.d y.d eps maxRel && Cmp.relativeEq x.u y.u eps maxRel
+        && Cmp.relativeEq x.a y.a eps maxRel) := rfl
+theorem bopCmp_ulps_eq {β : Type} [CmpScalar β] (eps maxRel : β) (maxUlps : Nat) (x y : BOp β) :
+    Cmp.bopCmp 3 eps maxRel maxUlps x y =
+      (Cmp.ulpsEq x.b y.b eps maxUlps && Cmp.ulpsEq x.d y.d eps maxUlps && Cmp.ulpsEq x.u y.u eps maxUlps
+        && Cmp.ulpsEq x.a y.a eps maxUlps) := rfl
+
+/- `<BOpinion<$ft> as AbsDiffEq>::abs_diff_eq(&self, other, epsilon)` is `Cmp.bopCmp 1` (max_relative, max_ulps unused) -/
+theorem gen_BOpinion_abs_diff_eq_eq {β : Type} [CmpScalar β] (maxRel : β) (maxUlps : Nat) :
+    @SLV.Gen.BOpinion_abs_diff_eq β _ = fun (x y : BOp β) (eps : β) => Cmp.bopCmp 1 eps maxRel maxUlps x y := rfl
+/- `<BOpinion<$ft> as RelativeEq>::relative_eq(&self, other, epsilon, max_relative)` is `Cmp.bopCmp 2` (max_ulps unused) -/
+theorem gen_BOpinion_relative_eq_eq {β : Type} [CmpScalar β] (maxUlps : Nat) :
+    @SLV.Gen.BOpinion_relative_eq β _ =
+      fun (x y : BOp β) (eps maxRel : β) => Cmp.bopCmp 2 eps maxRel maxUlps x y := rfl
+/- `<BOpinion<$ft> as UlpsEq>::ulps_eq(&self, other, epsilon, max_ulps)` is `Cmp.bopCmp 3` (max_relative unused) -/
+theorem gen_BOpinion_ulps_eq_eq {β : Type} [CmpScalar β] (maxRel : β) :
+    @SLV.Gen.BOpinion_ulps_eq β _ =
+      fun (x y : BOp β) (eps : β) (maxUlps : Nat) => Cmp.bopCmp 3 eps maxRel maxUlps x y := rfl
+
+/- derived `==` of `BSimplex<T>(Simplex1d<T, 2>)` on the triple (b, d, u): belief cell-wise, then uncertainty -/
+theorem gen_eq_BSimplex_eq {β : Type} [CmpScalar β] :
+    @SLV.Gen.eq_BSimplex β _ =
+      fun (x y : β × β × β) => Scalar.eq x.1 y.1 && Scalar.eq x.2.1 y.2.1 && Scalar.eq x.2.2 y.2.2 := rfl
+/- derived `==` of `BOpinion<T> { simplex, base_rate }` is `Cmp.bopCmp 0` (eps, max_relative, max_ulps unused) -/
+theorem gen_eq_BOpinion_eq {β : Type} [CmpScalar β] (eps maxRel : β) (maxUlps : Nat) :
+    @SLV.Gen.eq_BOpinion β _ = fun (x y : BOp β) => Cmp.bopCmp 0 eps maxRel maxUlps x y := rfl
 
 end SLV.Gen.Tie
